@@ -102,7 +102,7 @@ func vMutsStringC03(muts []vMutC03) string {
 func TestVerifC03Sampled(t *testing.T) {
 	vSetup(t)
 	st := verifkit.Begin(t, "C03")
-	sitesPerRepo := verifkit.Scale(30, 60)
+	sitesPerRepo := verifkit.Scale(24, 48)
 	rapid.Check(t, func(t *rapid.T) {
 		r := vGenRepoC03(t, vRepoGenC03{AllowDup: true, AllowTwoKeys: true, AllowMultiBlob: true})
 		defer r.Close()
@@ -208,7 +208,7 @@ func TestVerifC03Exhaustive(t *testing.T) {
 	}
 
 	// quick: every stride-th site (phase from the seed); thorough: every site
-	stride := verifkit.Scale(97, 1)
+	stride := verifkit.Scale(211, 1)
 	phase := int(verifkit.Seed() % int64(stride))
 	shard, shards := verifkit.Shard(), verifkit.Shards()
 	for _, name := range []string{"v1", "v2"} {
